@@ -35,6 +35,8 @@ import (
 	"path/filepath"
 	"sort"
 	"strings"
+
+	"verifharness/skel"
 )
 
 const modPath = "github.com/ipfs/ipfs-cluster"
@@ -2858,7 +2860,27 @@ func main() {
 		}
 		w("  %s%s -- %d\n", leanStr(n), sep, i+1)
 	}
-	w("]\n\nend CV.C18.Gen\n")
+	w("]\n\n")
+	// ---- source text of the functions the synchronisation models (Model/C18SyncProgs.lean) transcribe:
+	// one entry per source line as gofmt prints it, logging / tracing and string texts dropped (harness/skel)
+	w("namespace Src\n\n")
+	const prog = "extract_c18"
+	emitSrc := func(prefix, rel string, fns [][2]string) {
+		f := skel.Parse(prog, rel)
+		for _, fn := range fns {
+			fd := skel.Func(prog, f, fn[0], fn[1])
+			name := prefix + "_" + strings.TrimPrefix(fn[0], "*")
+			if fn[0] == "" {
+				name = prefix
+			}
+			name += "_" + fn[1]
+			b.WriteString(skel.LeanList(name, rel+": "+fn[0]+" "+fn[1], skel.Lines(fd)))
+		}
+	}
+	emitSrc("stateless", "pintracker/stateless/stateless.go", [][2]string{{"", "New"}, {"*Tracker", "opWorker"}, {"*Tracker", "enqueue"}, {"*Tracker", "SetClient"}, {"*Tracker", "Shutdown"}})
+	emitSrc("crdt", "consensus/crdt/consensus.go", [][2]string{{"", "New"}, {"*Consensus", "setup"}, {"*Consensus", "Shutdown"}, {"*Consensus", "SetClient"}, {"*Consensus", "Ready"}, {"*Consensus", "LogPin"}, {"*Consensus", "LogUnpin"}, {"*Consensus", "batchWorker"}})
+	emitSrc("cluster", "cluster.go", [][2]string{{"*Cluster", "run"}, {"*Cluster", "ready"}, {"*Cluster", "Ready"}, {"*Cluster", "Shutdown"}, {"*Cluster", "Done"}, {"*Cluster", "watchPeers"}})
+	w("end Src\n\nend CV.C18.Gen\n")
 	fmt.Print(b.String())
 
 	// human-readable summary on stderr
